@@ -3,6 +3,7 @@
   a normal form of `clientUpsert` on a physically present key, panic-freedom of the single calls.
 -/
 import CachedProofs.Lemmas.AMap
+import CachedProofs.Lemmas.EvictId
 import CachedProofs.Properties.C14
 import CachedModel.State
 
@@ -438,7 +439,7 @@ theorem sweepEvict_worker (s : State) (id : Nat) : (sweepEvict s id).1.worker = 
   unfold sweepEvict
   simp only []
   split
-  · exact applyEvict_worker _ _
+  · exact (applyEvictId_rest _ _).2.2.2.2.2.2.2.2.2.2.2.1
   · rfl
 
 theorem sweepEntries_worker : ∀ (l : List ((Nat × Nat) × Nat)) (s : State) (acc : List Evicted),
